@@ -20,5 +20,14 @@ RoundTripMC == RoundTrip(MCWs)
 EmitCases == done => PrintT(<<"CASE", ToJson([family |-> "value", abs |-> [ast |-> Value],
                                  spellings |-> SortedSeq({ Unparse(Value, ws) : ws \in MCWs })])>>)
 
+\* scale families: values with many pieces (the view back-end regroups more than 26 pieces into nested tuples), as a
+\* top-level value and as the children of one component; texts are numbered so that a dropped or moved piece shows
+Alt(n) == [i \in 1..n |-> IF i % 2 = 1 THEN Text(<<"s">> \o NatSyms(i) \o <<"SP">>) ELSE Var(IF i % 4 = 0 THEN <<"y">> ELSE <<"x">>)]
+ScaleSizes == {25, 26, 27, 28, 29, 51, 52, 53, 55, 56, 79, 100, 131}
+ScaleValues == { Alt(n) : n \in ScaleSizes } \cup { <<Text(<<"a">>), Comp(<<"b">>, Alt(n)), Text(<<"z">>)>> : n \in {26, 27, 53} }
+EmitScale == (ntok = 0 /\ ~done) => \A v \in ScaleValues :
+                 PrintT(<<"CASE", ToJson([family |-> "value", scale |-> TRUE, abs |-> [ast |-> v], spellings |-> <<Unparse(v, NoWs)>>])>>)
+ScaleRoundTrip == \A v \in ScaleValues : ParseCanon(Unparse(v, NoWs)) = v
+
 MCSpec == Init /\ [][Next]_vars /\ WF_vars(Next)
 =============================================================================
